@@ -65,6 +65,8 @@ func oracle(sc *Scenario, tr *trace) (*Violation, bool, bool, []int) {
 	flushed := make([][]int64, np) // ... of which known to be flushed
 	registered := make([]bool, np)
 	dropped := make([]bool, np) // truncated away completely and not written since
+	positionLost := false       // fwd scenarios: the pipe's progress file was torn
+	var dstAtTear []int64
 	pipes := map[string]bool{}
 	flushedAny, hazard := false, false
 	if len(tr.obs) == 0 || !tr.obs[0].Started {
@@ -195,6 +197,10 @@ func oracle(sc *Scenario, tr *trace) (*Violation, bool, bool, []int) {
 				wiped[g.Part] = true
 			}
 		}
+		if has(ss.Surgery, "progress-torn") && !positionLost {
+			positionLost = true
+			dstAtTear = append([]int64{}, acked[np-1]...)
+		}
 		S := ss.Surgery
 		o := tr.obs[si+1]
 		if o.Blind {
@@ -212,6 +218,8 @@ func oracle(sc *Scenario, tr *trace) (*Violation, bool, bool, []int) {
 				reason = "tindex-renamed" // the saver had moved tindex.dat away when it died
 			case strings.Contains(o.Err, "tindex") && strings.Contains(o.Err, "JSON") && has(S, "tindex-torn"):
 				reason = "tindex-torn"
+			case strings.Contains(o.Err, "pipe.Service") && has(S, "progress-torn"):
+				reason = "pipe-progress-torn"
 			case strings.Contains(o.Err, "pipe.Service") && ss.End == "crash-stop":
 				reason = "pipes-torn"
 			}
@@ -250,6 +258,12 @@ func oracle(sc *Scenario, tr *trace) (*Violation, bool, bool, []int) {
 			}
 			switch {
 			case eqI64(pv.Events, acked[p]):
+			case sc.Kind == "fwd" && p == np-1 && positionLost:
+				// after a crash that cost the pipe its position nothing is claimed about its progress: it may pass events
+				// over; it must not forward one twice, invent one or lose what its destination held
+				if !isPrefix(dstAtTear, pv.Events) || !isSubseq(pv.Events, acked[0]) {
+					add("events-differ-after-"+ss.End, "%s: partition %d (destination of the pipe that lost its position): held %v, the source was told %v, now %v", where, p, dstAtTear, acked[0], pv.Events)
+				}
 			case isPrefix(flushed[p], pv.Events) && isPrefix(pv.Events, acked[p]):
 				// a crash may lose what was not flushed yet; a graceful stop may not
 				if !crashed(ss) {
